@@ -80,3 +80,16 @@ def coq_item(e):
 
 def dec_items(es):
     return tuple(dec_item(e) for e in es)
+
+
+def np_ints(key, items):
+    """Every fourth case (by its key) hands integer indices over as numpy.int64 instead of Python ints: the
+    implementation must treat them alike.  Accepts a tuple / list of items or a single item."""
+    import zlib
+    import numpy as np
+    if zlib.crc32(str(key).encode()) % 4 != 0:
+        return items
+    conv = lambda i: np.int64(i) if isinstance(i, int) and not isinstance(i, bool) else i  # noqa
+    if isinstance(items, (tuple, list)):
+        return type(items)(conv(i) for i in items)
+    return conv(items)
